@@ -237,50 +237,53 @@ func (a *apWorld) key() string {
 	return fmt.Sprintf("old=%v extra=%d req=%v ", om, a.extra, a.req) + fmt.Sprintf("%s conn=%v ent2gone=%v val=%s shown=%v used=%v timers=%d", s[:strings.Index(s, " cbs=")], a.conn, a.ent2gone, world.JSON(a.f.DataCopy(fnLimit)), ms, us, rt.PendingTimers())
 }
 
-func c12Drivers(thorough bool) []*engine.HDriver {
-	// add: a callback may be registered late (it then answers like the others); old: verdicts for the messages of
-	// the previous connection. Both multiply the state space, the quick tier gives each its own small driver.
-	mk := func(n int, writes int, add, old bool) *engine.HDriver {
-		var alpha []string
-		for k := 0; k < writes; k++ {
-			alpha = append(alpha, fmt.Sprintf("w:%d", k))
-		}
-		cbs := n
-		if add {
-			cbs++
-		}
-		for k := 0; k < writes; k++ {
-			for cb := 0; cb < cbs; cb++ {
-				alpha = append(alpha, fmt.Sprintf("ap:%d:%d", cb, k), fmt.Sprintf("dn:%d:%d", cb, k))
-			}
-		}
-		alpha = append(alpha, "fire", "disc", "reconn", "entrm2")
-		name := fmt.Sprintf("approval-histories callbacks=%d writes=%d", n, writes)
-		if add {
-			alpha = append(alpha, "addcb")
-			name += " +late-callback"
-		}
-		if old {
-			for cb := 0; cb < n; cb++ {
-				alpha = append(alpha, fmt.Sprintf("apold:%d:0", cb))
-			}
-			name += " +stale-verdicts"
-		}
-		return &engine.HDriver{Name: name, Alphabet: alpha,
-			Step: func(hist []string, op string) engine.HStep {
-				a := newAPWorld(n)
-				a.trackOld = old
-				for _, h := range hist {
-					a.apply(h, false)
-				}
-				var st engine.HStep
-				if op != "" {
-					st.Violations, st.Digest, st.Effect = a.apply(op, true)
-				}
-				st.Key = a.key()
-				return st
-			}}
+// apDriver: histories of writes, verdicts, timeouts and connection changes on a feature with n approval callbacks.
+// add: a callback may be registered late (it then answers like the others); old: verdicts for the messages of
+// the previous connection. Both multiply the state space, the quick tier gives each its own small driver.
+func apDriver(n int, writes int, add, old bool) *engine.HDriver {
+	var alpha []string
+	for k := 0; k < writes; k++ {
+		alpha = append(alpha, fmt.Sprintf("w:%d", k))
 	}
+	cbs := n
+	if add {
+		cbs++
+	}
+	for k := 0; k < writes; k++ {
+		for cb := 0; cb < cbs; cb++ {
+			alpha = append(alpha, fmt.Sprintf("ap:%d:%d", cb, k), fmt.Sprintf("dn:%d:%d", cb, k))
+		}
+	}
+	alpha = append(alpha, "fire", "disc", "reconn", "entrm2")
+	name := fmt.Sprintf("approval-histories callbacks=%d writes=%d", n, writes)
+	if add {
+		alpha = append(alpha, "addcb")
+		name += " +late-callback"
+	}
+	if old {
+		for cb := 0; cb < n; cb++ {
+			alpha = append(alpha, fmt.Sprintf("apold:%d:0", cb))
+		}
+		name += " +stale-verdicts"
+	}
+	return &engine.HDriver{Name: name, Alphabet: alpha,
+		Step: func(hist []string, op string) engine.HStep {
+			a := newAPWorld(n)
+			a.trackOld = old
+			for _, h := range hist {
+				a.apply(h, false)
+			}
+			var st engine.HStep
+			if op != "" {
+				st.Violations, st.Digest, st.Effect = a.apply(op, true)
+			}
+			st.Key = a.key()
+			return st
+		}}
+}
+
+func c12Drivers(thorough bool) []*engine.HDriver {
+	mk := apDriver
 	if thorough {
 		return []*engine.HDriver{mk(2, 2, false, false), mk(3, 1, false, false), mk(1, 2, true, false), mk(1, 1, false, true), mk(2, 1, true, true), mk(2, 2, true, true), mk(3, 1, true, true)}
 	}
